@@ -487,6 +487,12 @@ func (t *Task) TempDir() string {
 	pathPrefix := tempDirPrefix + "." + sanitizePathFragment(t.Name)
 	hashPcs := []string{t.Name}
 	for _, ipName := range sortedFileIPMapKeys(t.InIPs) {
+		if ptInfo, ok := t.portInfos[ipName]; ok && ptInfo.join {
+			// The IP on a joined port only carries the sub-stream, and has a
+			// random path that differs between runs. The (stable) paths of
+			// the sub-stream members are added below.
+			continue
+		}
 		hashPcs = append(hashPcs, splitAllPaths(t.InIP(ipName).Path())...)
 	}
 	for _, subIPName := range sortedFileIPSliceMapKeys(t.subStreamIPs) {
